@@ -91,6 +91,8 @@ impl FlushWorker {
                         .await;
                 }
 
+                #[cfg(feature = "sim-hooks")]
+                crate::sim_hooks::gate("flush.start", format!("s{}/{:05}", shard_id, segment_id)).await;
                 let flusher = Flusher::new(
                     memtable,
                     segment_id,
@@ -99,6 +101,8 @@ impl FlushWorker {
                     Arc::clone(&flush_coord_lock),
                 );
                 let flush_result = flusher.flush().await;
+                #[cfg(feature = "sim-hooks")]
+                crate::sim_hooks::gate("flush.written", format!("s{}/{:05}", shard_id, segment_id)).await;
 
                 match &flush_result {
                     Err(e) => {
@@ -158,6 +162,8 @@ impl FlushWorker {
                             return flush_result;
                         }
 
+                        #[cfg(feature = "sim-hooks")]
+                        crate::sim_hooks::gate("flush.verified", format!("s{}/{:05}", shard_id, segment_id)).await;
                         // Only update segment_ids after successful verification
                         let segment_name = format!("{:05}", segment_id);
                         {
@@ -176,6 +182,8 @@ impl FlushWorker {
                             }
                         }
 
+                        #[cfg(feature = "sim-hooks")]
+                        crate::sim_hooks::gate("flush.published", format!("s{}/{:05}", shard_id, segment_id)).await;
                         // Mark as verified and clear passive buffer
                         if track_lifecycle {
                             lifecycle.mark_verified(segment_id).await;
@@ -205,6 +213,8 @@ impl FlushWorker {
                         // Note: Passive buffer is now empty and will be filtered out by
                         // PassiveBufferSet::non_empty() in subsequent queries
 
+                        #[cfg(feature = "sim-hooks")]
+                        crate::sim_hooks::gate("flush.released", format!("s{}/{:05}", shard_id, segment_id)).await;
                         // Clean up WAL files
                         if tracing::enabled!(tracing::Level::DEBUG) {
                             debug!(
@@ -216,6 +226,8 @@ impl FlushWorker {
                         }
                         let cleaner = WalCleaner::new(shard_id);
                         cleaner.cleanup_up_to(segment_id + 1);
+                        #[cfg(feature = "sim-hooks")]
+                        crate::sim_hooks::gate("flush.pruned", format!("s{}/{:05}", shard_id, segment_id)).await;
                     }
                 }
 
